@@ -14,6 +14,11 @@ Rows and where they are documented:
   strings_vectors    char*/std::string/std::vector in/out/result (tools/gen/libgen.py rows)
   overloads_defaults overloaded functions and trailing default arguments
   enum_ns            enums and nested namespaces
+  assumed_rank       native pointer arguments with +dimension(..) (docs/fortran.rst assumed-rank; F_CFI statement
+                     c_native_*_in_cfi with f_module_line) between arguments of OTHER kinds before and after
+  fmodule_mix        arguments whose statement entries carry f_module / f_module_line (void*, void**, T** in/out, char scalar,
+                     char**, std::string by value, +deref(raw/pointer) results, std::vector out/result, +cdesc), each between
+                     scalars of different kinds, so that a module's ONLY list is built from several entries
 All randomness comes from the `random.Random` passed in."""
 import re
 
@@ -21,7 +26,7 @@ import yaml
 
 from tools.gen import libgen
 
-FEATURES = ["class_own_header", "class_cpp_if", "callback", "long_args", "long_types", "strings_vectors",
+FEATURES = ["assumed_rank", "fmodule_mix", "class_own_header", "class_cpp_if", "callback", "long_args", "long_types", "strings_vectors",
             "overloads_defaults", "enum_ns"]
 CXX_ONLY = {"class_own_header", "class_cpp_if", "long_types", "strings_vectors", "overloads_defaults"}
 
@@ -33,6 +38,60 @@ SCALARS = ["int", "double", "long", "float"]
 def _scalar_params(r, n, long_names=True):
     names = r.sample(LONGWORDS, min(n, len(LONGWORDS)))
     return ["%s %s" % (r.choice(SCALARS), nm if long_names else "a%d" % i) for i, nm in enumerate(names)]
+
+
+KINDS = ["int", "long", "double", "float", "short", "size_t"]
+
+
+_uid = [0]
+
+
+def _mixed(r, n, used):
+    """n scalar parameters (unique names) of kinds not in `used` where possible"""
+    out = []
+    for i in range(n):
+        cand = [k for k in KINDS if k not in used] or KINDS
+        k = r.choice(cand)
+        used.add(k)
+        _uid[0] += 1
+        out.append("%s %s_%d" % (k, r.choice(["count", "scale", "offset", "flag"]), _uid[0]))
+    return out
+
+
+def f_assumed_rank(r, idx):
+    out = []
+    for k in range(r.randrange(2, 4)):
+        akind = r.choice(["double", "float", "int", "long"])
+        used = {akind}
+        before = _mixed(r, r.randrange(1, 3), used)
+        after = _mixed(r, r.randrange(0, 3), used)
+        arr = "const %s *values%d +dimension(..)" % (akind, k)
+        res = r.choice(["void", akind, r.choice(KINDS)])
+        out.append({"decl": "%s reduce_values%d_%d(%s)" % (res, idx, k, ", ".join(before + [arr] + after))})
+    return out, []
+
+
+def f_fmodule_mix(r, idx, language="c++"):
+    used = set()
+    pool = [
+        "void *opaque%(k)d", "void **handle%(k)d", "char letter%(k)d", "char **names%(k)d +intent(in)",
+        "int **table%(k)d +intent(out)+dimension(n%(k)d)", "double *work%(k)d +intent(inout)+rank(1)",
+        "int *cd%(k)d +intent(in)+cdesc+rank(1)",
+    ]
+    if language != "c":
+        pool += ["std::string word%(k)d", "std::vector<int> &vec%(k)d +intent(out)", "std::vector<double> &vio%(k)d +intent(inout)"]
+    out = []
+    for k in range(r.randrange(2, 5)):
+        special = r.choice(pool) % {"k": k}
+        before = _mixed(r, r.randrange(1, 3), used)
+        if "dimension(n%d)" % k in special:
+            before.append("int n%d" % k)
+        after = _mixed(r, r.randrange(0, 2), used)
+        res = r.choice(["void", "int", "double"])
+        out.append({"decl": "%s mixed_call%d_%d(%s)" % (res, idx, k, ", ".join(before + [special] + after))})
+    out.append({"decl": r.choice(["int *raw_result%d(double x) +deref(raw)", "void *opaque_result%d(int x)",
+                                  "int *pointer_result%d(int n) +deref(pointer)+dimension(n)"]) % idx})
+    return out, []
 
 
 def f_class_own_header(r, idx):
@@ -116,6 +175,7 @@ def f_enum_ns(r, idx, language="c++"):
 
 def gen(r, feature, language=None, allow_vector=True, name="flib"):
     """returns dict(yaml_text, headers [(name, text)], defines [macro], language, features [..])"""
+    _uid[0] = 0
     if language is None:
         language = "c++" if feature in CXX_ONLY else r.choice(["c", "c++"])
     feats = [feature]
@@ -125,8 +185,8 @@ def gen(r, feature, language=None, allow_vector=True, name="flib"):
     for i, f in enumerate(feats):
         if f == "strings_vectors":
             d, m = f_strings_vectors(r, i, allow_vector)
-        elif f == "enum_ns":
-            d, m = f_enum_ns(r, i, language)
+        elif f in ("enum_ns", "fmodule_mix"):
+            d, m = globals()["f_" + f](r, i, language)
         else:
             d, m = globals()["f_" + f](r, i)
         decls += d
